@@ -338,7 +338,7 @@ var Pkgs = []string{
 	"vendor/golang.org/x/net/http2/hpack", "example.com/a/vendor/github.com/b/c", "github.com/x/y@v1.2.3/z",
 	"example.com/héllo/wörld", "example.com/日本語/パッケージ", "example.com/with space/p", "example.com/pct%/p",
 	"example.com/quo\"te/p", "foo.bar", "a", "example.com/~user/pkg", "example.com/v2.0/x.y.z", "example.com/p.",
-	"command-line-arguments", "go.opentelemetry.io/otel/sdk/trace", "example.com/a-b/c_d", "example.com/tilde~/p",
+	"command-line-arguments", "go.opentelemetry.io/otel/sdk/trace", "github.com/example/averyveryverylongmodulename/v2", "gopkg.in/src-d/go-git.v4/plumbing", "example.com/a-b/c_d", "example.com/tilde~/p",
 }
 
 // PlusPkgs are package paths containing '+', legal in import paths and not
